@@ -64,6 +64,47 @@ def rules(rep, m):
                     want = "((%s->holder != NULL) ? 1 : 0)" % O
                     got = a[1].replace("1.0", "1").replace("0.0", "0")
                     if got != want:
+                        # the same function of the holder spelled with if / else on a local (possibly an inlined helper's
+                        # result): every value it is given is 1 under 'holder != NULL' and 0 under 'holder == NULL'
+                        v0 = strip(kids(c)[2], casts=True)
+                        HELD = ("(%s->holder != NULL)" % O, "!(%s->holder == NULL)" % O)
+                        FREE = ("(%s->holder == NULL)" % O, "!(%s->holder != NULL)" % O)
+
+                        def defs_of(vid, depth=0):
+                            out = []
+                            for d_ in walk(f.body):
+                                if d_["kind"] == "VarDecl" and d_["id"] == vid and kids(d_):
+                                    out.append((kids(d_)[0], d_))
+                            for l_, r_, k_, n_ in inv.stores(f):
+                                l0 = strip(l_, casts=True)
+                                if l0["kind"] == "DeclRefExpr" and l0["ref"]["id"] == vid and r_ is not None and k_ == "=":
+                                    out.append((r_, n_))
+                            res = []
+                            for val, node in out:
+                                v1 = strip(val, casts=True)
+                                if v1["kind"] == "DeclRefExpr" and v1["ref"].get("kind") == "VarDecl" and depth < 4:
+                                    res.extend(defs_of(v1["ref"]["id"], depth + 1))
+                                else:
+                                    res.append((val, node))
+                            return res
+                        if v0["kind"] == "DeclRefExpr" and v0["ref"].get("kind") == "VarDecl":
+                            ds = defs_of(v0["ref"]["id"])
+                            seen_ = set()
+                            fine = bool(ds)
+                            for val, node in ds:
+                                vc = cx.canon(val).replace("1.0", "1").replace("0.0", "0")
+                                cds = inv.dominating_conditions(cx, f, node)
+                                if vc == want:
+                                    seen_ |= {0, 1}
+                                elif vc == "1" and any(cd in HELD for cd in cds):
+                                    seen_.add(1)
+                                elif vc == "0" and any(cd in FREE for cd in cds):
+                                    seen_.add(0)
+                                else:
+                                    fine = False
+                            if fine and seen_ == {0, 1}:
+                                got = want
+                    if got != want:
                         rep.finding(r2, f.name, "sample:value", "recorded value '%s' is not (holder != NULL) ? 1 : 0"
                                     % a[1], where=m.rel(loc(c)))
                         ok = False
